@@ -62,6 +62,7 @@ def run(ctx):
         return run_fixture(ctx, cfg, ctx.s("ops"))
     feat = C.draw_features(ctx)
     feat["max_params"] = 2
+    feat["join_names"] = cfg.draw(3) == 0  # more often than elsewhere: the converter compares calls by their text
     nag = 2 + cfg.draw(3)
     W = C.World(ctx, feat, multi_agent=True, agents=nag)
     ops = ctx.s("ops")
@@ -80,7 +81,13 @@ def run(ctx):
     for _ in range(n):
         r = None
         for _try in range(8):
-            c = G.gen_call(ops, W.D, W.P)
+            c = None
+            if feat.get("join_names") and plan and _try < 4 and ops.draw(3):
+                c = join_twin(ops, W, ops.pick(plan))  # another call that reads the same once its tokens are joined
+                if c is not None:
+                    ctx.probes["join_twin_tried"] += 1
+            if c is None:
+                c = G.gen_call(ops, W.D, W.P)
             if c is None:
                 continue
             try:
@@ -98,9 +105,24 @@ def run(ctx):
         cur = r[1]
     if not plan:
         raise Skip()
+    if any(x != y and "_".join(x[1]) == "_".join(y[1]) and x[0] == y[0] for x in plan for y in plan):
+        ctx.probes["plan_with_join_twins"] += 1
     final_seq = cur
     validate = cfg.chance(1, 2)
     check_conversion(ctx, W, S0, plan, final_seq, agents, validate, ops)
+
+
+def join_twin(ops, W, c):
+    """a different type-correct call of the same action whose tokens give the same text when joined by '_', '-' or
+    nothing - e.g. (a x x_x) / (a x_x x)"""
+    import itertools
+    a, args = c
+    cands = [G.objects_of(W.D, W.objs, ty) for _, ty in W.action(a)["params"]]
+    out = []
+    for combo in itertools.islice(itertools.product(*cands), 400):
+        if list(combo) != list(args) and any(sep.join(combo) == sep.join(args) for sep in ("_", "-", "")):
+            out.append((a, list(combo)))
+    return ops.pick(out) if out else None
 
 
 def run_fixture(ctx, cfg, ops):
@@ -121,6 +143,48 @@ def run_fixture(ctx, cfg, ops):
     for a, args in plan:
         cur, _ = interp.successor(cur, W.action(a), args, W.D, W.objs)
     check_conversion(ctx, W, S0, plan, cur, agents, cfg.chance(1, 2), ops)
+
+
+def renamed_conversion(ctx, W, S0, plan, agents, validate, jp):
+    """metamorphic oracle: the conversion is a function of the plan's structure, not of what the objects are called.
+    The same problem with every object renamed injectively to a separator-free name (z000q, z001q, ...) must be
+    grouped the same way.  Catches anything keyed on joined / embedded / prefix-sharing names."""
+    import copy
+    from pddl_plus_parser.multi_agent import PlanConverter
+    names = list(W.P["objects"])
+    ren = {o: f"z{i:03d}q" for i, o in enumerate(names)}
+    r = lambda x: ren.get(x, x)
+    W2 = copy.copy(W)
+    W2.P = dict(W.P, objects={r(o): ty for o, ty in W.P["objects"].items()},
+                facts={(f[0],) + tuple(r(a) for a in f[1:]) for f in W.P["facts"]},
+                fluents={(k[0],) + tuple(r(a) for a in k[1:]): v for k, v in W.P["fluents"].items()},
+                goal=[(g[0],) + tuple(r(a) for a in g[1:]) for g in W.P.get("goal", [])], goal_num=[])
+    W2.objs = G.all_objects(W2.D, W2.P)
+    S0r = (frozenset((f[0],) + tuple(r(a) for a in f[1:]) for f in S0[0]),
+           {(k[0],) + tuple(r(a) for a in k[1:]): v for k, v in S0[1].items()})
+    plan_r = [(a, [r(x) for x in args]) for a, args in plan]
+    agents_r = [r(a) for a in agents]
+    try:
+        d2, p2, _ = C.lib_world(ctx, W2, S0r, tag="-renamed")
+        path2 = C.put(ctx, "plan-renamed.solution", "\n".join(C.fmt_call(*c) for c in plan_r) + "\n")
+        joint2 = PlanConverter(d2).convert_plan(p2, path2, agents_r, should_validate_concurrency_constraint=validate)
+    except Exception as e:
+        describe(ctx, W, plan, S0)
+        ctx.note(f"plan {[C.fmt_call(*c) for c in plan]} agents {agents} renaming {ren}")
+        ctx.note(f"original conversion: {[[('nop' if c is None else C.fmt_call(*c)) for c in s] for s in jp]}")
+        raise Violation("C15/renaming-changes-conversion", "PlanConverter.convert_plan",
+                        f"the renamed copy of a problem whose plan converts fails: {type(e).__name__}: {e}")
+    back = {v: k for k, v in ren.items()}
+    jp2 = [[None if a.name == "nop" else (a.name, [back.get(x, x) for x in a.parameters]) for a in ja.actions]
+           for ja in joint2]
+    ctx.probes["renamed_conversions"] += 1
+    if jp2 != jp:
+        fmt = lambda J: [[("nop" if c is None else C.fmt_call(*c)) for c in s] for s in J]
+        ctx.note(f"original names: {fmt(jp)}")
+        ctx.note(f"renamed copy:   {fmt(jp2)} (mapped back)")
+        raise Violation("C15/renaming-changes-conversion", "PlanConverter.convert_plan",
+                        f"renaming the objects {ren} changes the grouping: {C.short(fmt(jp), 200)} vs "
+                        f"{C.short(fmt(jp2), 200)}")
 
 
 def agent_of(c, agents):
@@ -221,6 +285,10 @@ def check_conversion(ctx, W, S0, plan, final_seq, agents, validate, ops):
         cur = nxt
     if not interp.state_eq(cur, final_seq):
         raise Violation("C15/final-state-differs", site, interp.state_diff(cur, final_seq))
+    # (only for conversions that passed everything above: once interfering members were grouped - the recorded
+    # findings - the converter's tracked state depends on the order in which it applied them)
+    if not fixture and (W.feat.get("join_names") or ctx.s("cfg").draw(6) == 0):
+        renamed_conversion(ctx, W, S0, plan, agents, validate, jp)
     # ---- two caller threads convert the same plan, each with its own converter and its own agent order, sharing the
     # domain and problem objects: each must get what it gets alone
     if not fixture and ctx.s("cfg").chance(1, 5) and len(agents) >= 2:
